@@ -34,7 +34,8 @@ ASSUMPTIONS = [
     'AttributeError are undocumented and left out',
     'fault positions are user callables (spec function, Invoke, T.method()), Check validators, property getters '
     'reached by a path, the next() of a one-shot iterator target (generator, iterator object, generator under a '
-    'key) walked by [subspec] at its 1st or 2nd item, and glom-detected failures, below chains of constructs; siblings of the chain are fixed '
+    'key) walked by [subspec] at its 1st or 2nd item, the index / argument spec of a T operation (T[Spec(f)], '
+    'T[Invoke(f)], T.m(Spec(f))), and glom-detected failures, below chains of constructs; siblings of the chain are fixed '
     'per construct variant',
     'classes that cannot be subclassed (metaclass / __init_subclass__ tricks) are not in the catalogue',
     'top-level defaults tried: opaque object, None, a list, a dict holding a T expression and a list, T itself; '
@@ -74,7 +75,7 @@ def n_hows(ctxs, leaf):
         return len(W.GLOM_LEAVES[leaf['id']])
     if ctxs and ctxs[-1]['k'] == 'geniter':
         return 3
-    if ctxs and ctxs[-1]['k'] in ('checkval', 'pathget'):
+    if ctxs and ctxs[-1]['k'] in ('checkval', 'pathget', 'targ'):
         return 1
     return len(W.USER_HOWS)
 
@@ -169,7 +170,7 @@ def worker(states):
 
 
 # ---- code -> spec -------------------------------------------------------------------------------
-BASES = [(Exception,), (ValueError,), (KeyError,), (LookupError,), (OSError,), (TypeError,),
+BASES = [(Exception,), (ValueError,), (KeyError,), (IndexError,), (LookupError,), (OSError,), (TypeError,),
          (GlomError,), (GlomError, ValueError), (glom.MatchError,), (BaseException,), (ZeroDivisionError,)]
 CTORS = ['plain', 'keep', 'attrs', 'shrink', 'grow', 'dbl', 'kwonly', 'raise2nd', 'idem', 'copy', 'opt']
 
@@ -293,9 +294,10 @@ def rand_row(rng):
     else:
         make_exc, desc = synth(rng)
         cid, kind = 'RCls', 'user'
-    if kind != 'glomdoc' and rng.random() < 0.2:
-        lk = rng.choice(['checkval', 'pathget', 'geniter', 'geniter'])
-        ctxs.append(dict(k=lk, v=rng.choice(['k1', 'k2']) if lk == 'geniter' else '-', skip='-', sib='-', dflt='-'))
+    if kind != 'glomdoc' and rng.random() < 0.3:
+        lk = rng.choice(['checkval', 'pathget', 'geniter', 'geniter', 'targ', 'targ'])
+        ctxs.append(dict(k=lk, v=rng.choice(['k1', 'k2']) if lk == 'geniter' else
+                         rng.choice(['idx_spec', 'idx_invoke', 'call_spec']) if lk == 'targ' else '-', skip='-', sib='-', dflt='-'))
     kw = dict(default=rng.choice(KW_DEFAULTS), skip=rng.choice(KW_SKIPS), debug=rng.random() < 0.3)
     how = rng.randint(0, 11)
     if kind == 'glomdoc':
@@ -303,7 +305,7 @@ def rand_row(rng):
         w = W.World(ctxs, leaf, None, how)
     else:
         w = W.World(ctxs, dict(id=cid, kind='user'), make_exc, how)
-        leaf = W.measure(w.inj, cid, 'builtin' if cid in ('Exception', 'ValueError', 'KeyError', 'Os2', 'Os3', 'Uni5', 'BKbd') else 'user')
+        leaf = W.measure(w.inj, cid, 'builtin' if cid in ('Exception', 'ValueError', 'KeyError', 'IndexError', 'TypeError', 'Os2', 'Os3', 'Uni5', 'BKbd') else 'user')
         w.leaf = leaf
     out = w.run(kw)
     evs = w.events()
@@ -381,7 +383,7 @@ def corrupted_row_rejected(check, rows):
     check.extra['corrupted_row_rejected'] = True
 
 
-MUTANTS = {'default_arg_val': 'InvDefaultSelective', 'iter_wraps': 'CreatedAreDocumented', 'copy_unguarded': 'InvClassKept', 'ctor_rerun': 'InvClassKept', 'skip_after_wrap': 'InvDefaultSelective', 'default_none_absent': 'InvDefaultSelective',
+MUTANTS = {'arg_in_guard': 'TransparentLaw', 'default_arg_val': 'InvDefaultSelective', 'iter_wraps': 'CreatedAreDocumented', 'copy_unguarded': 'InvClassKept', 'ctor_rerun': 'InvClassKept', 'skip_after_wrap': 'InvDefaultSelective', 'default_none_absent': 'InvDefaultSelective',
            'debug_copies': 'InvDebug', 'wrap_glom_only': 'InvClassKept', 'wrap_no_fallback': 'InvClassKept',
            'or_catches_all': 'PassThroughLaw'}
 
@@ -436,7 +438,7 @@ def main(tier, seed):
     check.extra['replayed'] = total
     check.extra['action_counts'] = acts
     needed = ['RaiseAt', 'Pass', 'CatchCoalesce', 'CatchOr', 'CatchAnd', 'CatchNot', 'CatchMatchDefault',
-              'CatchSwitch', 'CatchCheckSpec', 'CatchCheckVal', 'CatchPathGet', 'PassIter', 'TopReturn', 'TopSkip', 'TopBase',
+              'CatchSwitch', 'CatchCheckSpec', 'CatchCheckVal', 'CatchPathGet', 'PassIter', 'PassArg', 'TopReturn', 'TopSkip', 'TopBase',
               'TopDebug', 'TopCopy', 'TopWrap']
     missing = [a for a in needed if not acts.get(a)]
     if missing or not total['excluded']:
